@@ -17,7 +17,7 @@ ASSUMPTIONS = ["metadata is compared as 'every user key is present with an equal
 
 
 def histories(rng, tier):
-    n = 90 if tier == 'quick' else 1500
+    n = 220 if tier == 'quick' else 1500
     out = []
     for _ in range(n):
         c = gen.rand_cfg(rng, max_npix=768, name='m')
